@@ -65,15 +65,14 @@ def classify_polylines(ka, pa, kb, pb):
 
 
 def point_segment_sqdist(P, a, b):
-    """(squared distance, local parameter in [0,1] of the nearest point) - exact"""
-    dx, dy = b[0] - a[0], b[1] - a[1]
-    L2 = dx * dx + dy * dy
+    """(squared distance, local parameter in [0,1] of the nearest point) - exact, any dimension"""
+    d = [y - x for x, y in zip(a, b)]
+    L2 = sum(c * c for c in d)
     if L2 == 0:
-        return (P[0] - a[0]) ** 2 + (P[1] - a[1]) ** 2, F(0)
-    t = F((P[0] - a[0]) * dx + (P[1] - a[1]) * dy) / F(L2)
+        return sum((p - x) ** 2 for p, x in zip(P, a)), F(0)
+    t = F(sum((p - x) * c for p, x, c in zip(P, a, d))) / F(L2)
     t = max(F(0), min(F(1), t))
-    x, y = a[0] + t * dx, a[1] + t * dy
-    return (P[0] - x) ** 2 + (P[1] - y) ** 2, t
+    return sum((p - (x + t * c)) ** 2 for p, x, c in zip(P, a, d)), t
 
 
 def point_polyline_sqdist(P, knots, pts):
